@@ -412,6 +412,183 @@ fn run_batch(base: u64, runs: u64, workers: u64, max_secs: u64) -> Batch {
 }
 
 
+
+// ------------------------------------------------------------------ lane B2-cli: separate CLI processes
+// "calls in separate processes all return byte-identical results": the same (text, config) given
+// to the real CLI in two processes whose worlds differ in everything the result must not depend
+// on (how stdin/files are chunked, EINTR, directory order, clock, randomness, environment).
+use vsim::clisim::types::{Case as CliCase, Inv, Mode, Shape, Step};
+
+#[derive(Serialize, Deserialize, Clone, Debug)]
+struct CliWorldsReplay {
+    engine: String,
+    property: String,
+    tree: vsim::clisim::types::Tree,
+    world_a: Inv,
+    world_b: Inv,
+    message: String,
+}
+
+fn cli_env(worker: usize) -> vsim::clisim::run::Env {
+    let v = verif_dir();
+    let bin = std::env::var("VSIM_BIN").map(PathBuf::from).unwrap_or_else(|_| v.join(".target/cli/debug/typstyle"));
+    let scratch = if Path::new("/dev/shm").is_dir() { PathBuf::from("/dev/shm") } else { std::env::temp_dir() };
+    let base = scratch.join(format!("typstyle-verif-{:07}", std::process::id())).join(format!("c{:05}", worker));
+    vsim::clisim::run::Env { bin, shim: shim_path(), base }
+}
+
+/// runs both worlds on the same tree; Some(message) if the observable result differs
+fn cli_worlds_differ(env: &vsim::clisim::run::Env, tree: &vsim::clisim::types::Tree, a: &Inv, b: &Inv) -> Result<Option<String>, String> {
+    vsim::clisim::world::materialise(&env.root(), tree).map_err(|e| e.to_string())?;
+    let oa = vsim::clisim::run::run_inv(env, a).map_err(|e| e.to_string())?;
+    let ob = vsim::clisim::run::run_inv(env, b).map_err(|e| e.to_string())?;
+    if oa.signal.is_some() || ob.signal.is_some() {
+        return Ok(None);
+    }
+    if oa.stdout != ob.stdout {
+        let d = vsim::util::first_diff(&oa.stdout, &ob.stdout);
+        return Ok(Some(format!(
+            "the same text and configuration give different stdout in two CLI processes: first difference at byte {} (world A {:?}, world B {:?}; world B plan {:?}, env {:?})",
+            d,
+            vsim::util::excerpt(&oa.stdout[d.min(oa.stdout.len())..], 40),
+            vsim::util::excerpt(&ob.stdout[d.min(ob.stdout.len())..], 40),
+            b.plan.iter().map(|r| r.render()).collect::<Vec<_>>(),
+            b.env
+        )));
+    }
+    if oa.exit != ob.exit {
+        return Ok(Some(format!("the same text and configuration give exit status {:?} in one CLI process and {:?} in another (world B plan {:?}, env {:?})", oa.exit, ob.exit, b.plan.iter().map(|r| r.render()).collect::<Vec<_>>(), b.env)));
+    }
+    Ok(None)
+}
+
+struct CliLane {
+    pairs: u64,
+    faults_in_b: u64,
+    found: Option<CliWorldsReplay>,
+    errors: Vec<String>,
+}
+
+fn cli_worlds_lane(base: u64, n: u64, workers: usize) -> CliLane {
+    use std::sync::atomic::{AtomicU64, Ordering};
+    use std::sync::{Arc, Mutex};
+    let next = Arc::new(AtomicU64::new(0));
+    let out = Arc::new(Mutex::new(CliLane { pairs: 0, faults_in_b: 0, found: None, errors: vec![] }));
+    let fixtures = Arc::new(load_fixtures());
+    let mut hs = Vec::new();
+    for w in 0..workers {
+        let (next, out, fixtures) = (next.clone(), out.clone(), fixtures.clone());
+        hs.push(std::thread::spawn(move || {
+            let env = cli_env(w);
+            let mut oracle = vsim::oracle::Oracle::new();
+            let params = vsim::clisim::workload::GenParams { focus: vsim::clisim::workload::Focus::C16, max_large: 70_000, fixtures };
+            loop {
+                let i = next.fetch_add(1, Ordering::Relaxed);
+                if i >= n || out.lock().unwrap().found.is_some() {
+                    break;
+                }
+                let seed = mix(base ^ 0xC11, i);
+                let case: CliCase = vsim::clisim::workload::gen_case(seed, "benign", &params, &mut oracle);
+                let Some(Step::Inv(inv)) = case.steps.iter().find(|s| matches!(s, Step::Inv(Inv { shape: Shape::Files { mode: Mode::Stdout, .. } | Shape::Stdin { check: false }, .. }))).cloned() else { continue };
+                let mut a = inv.clone();
+                a.plan.clear();
+                a.readdir = "sorted".into();
+                a.env.clear();
+                a.shim_seed = 1;
+                let mut b = inv.clone();
+                let mut frng = vsim::rng::Rng::stream(seed, "faults");
+                vsim::clisim::plan::add_plan(&mut frng, "benign", &case.tree, &mut b, &mut oracle, 40);
+                if b.env.is_empty() {
+                    b.env.push(("COLUMNS".into(), "33".into()));
+                }
+                match cli_worlds_differ(&env, &case.tree, &a, &b) {
+                    Ok(res) => {
+                        let mut o = out.lock().unwrap();
+                        o.pairs += 1;
+                        o.faults_in_b += b.plan.len() as u64;
+                        if let Some(msg) = res {
+                            if o.found.is_none() {
+                                o.found = Some(CliWorldsReplay { engine: "cliworlds".into(), property: "C17".into(), tree: case.tree.clone(), world_a: a, world_b: b, message: msg });
+                            }
+                        }
+                    }
+                    Err(e) => out.lock().unwrap().errors.push(format!("seed {}: {}", seed, e)),
+                }
+            }
+            let _ = std::fs::remove_dir_all(&env.base);
+        }));
+    }
+    for h in hs {
+        let _ = h.join();
+    }
+    let mut lane = std::mem::replace(&mut *out.lock().unwrap(), CliLane { pairs: 0, faults_in_b: 0, found: None, errors: vec![] });
+    // minimise: drop world-B rules and environment, shorten the inputs line-wise
+    if let Some(mut r) = lane.found.take() {
+        let env = cli_env(9999);
+        let still = |r: &CliWorldsReplay| cli_worlds_differ(&env, &r.tree, &r.world_a, &r.world_b).ok().flatten();
+        let mut i = 0;
+        while i < r.world_b.plan.len() {
+            let mut c = r.clone();
+            c.world_b.plan.remove(i);
+            if still(&c).is_some() { r = c } else { i += 1 }
+        }
+        let mut c = r.clone();
+        c.world_b.env.clear();
+        if still(&c).is_some() {
+            r = c;
+        }
+        // inputs: stdin, or every file of the tree
+        let shrink_lines = |text: &[u8], put: &dyn Fn(&mut CliWorldsReplay, Vec<u8>), r: &mut CliWorldsReplay| {
+            let mut lines: Vec<Vec<u8>> = text.split_inclusive(|c| *c == b'\n').map(|l| l.to_vec()).collect();
+            let mut k = 0;
+            let mut budget = 200;
+            while k < lines.len() && lines.len() > 1 && budget > 0 {
+                budget -= 1;
+                let mut cand = lines.clone();
+                cand.remove(k);
+                let mut c = r.clone();
+                put(&mut c, cand.concat());
+                if cli_worlds_differ(&env, &c.tree, &c.world_a, &c.world_b).ok().flatten().is_some() {
+                    lines = cand;
+                    *r = c;
+                } else {
+                    k += 1;
+                }
+            }
+        };
+        if let Some(b) = r.world_a.stdin.clone() {
+            shrink_lines(&b.0, &|c, nb| {
+                c.world_a.stdin = Some(vsim::util::Bytes(nb.clone()));
+                c.world_b.stdin = Some(vsim::util::Bytes(nb));
+            }, &mut r);
+        }
+        let keys: Vec<String> = r.tree.keys().cloned().collect();
+        for k in keys {
+            // drop files that do not matter, shorten those that do
+            let mut c = r.clone();
+            c.tree.remove(&k);
+            if still(&c).is_some() {
+                r = c;
+                continue;
+            }
+            if let Some(vsim::clisim::types::Node::File(b)) = r.tree.get(&k).cloned() {
+                let kk = k.clone();
+                shrink_lines(&b.0, &move |c, nb| {
+                    c.tree.insert(kk.clone(), vsim::clisim::types::Node::File(vsim::util::Bytes(nb)));
+                }, &mut r);
+            }
+        }
+        if let Some(m) = still(&r) {
+            r.message = m;
+        }
+        let _ = std::fs::remove_dir_all(&env.base);
+        lane.found = Some(r);
+    }
+    let scratch = if Path::new("/dev/shm").is_dir() { PathBuf::from("/dev/shm") } else { std::env::temp_dir() };
+    let _ = std::fs::remove_dir(scratch.join(format!("typstyle-verif-{:07}", std::process::id())));
+    lane
+}
+
 // ------------------------------------------------------------------ lane B3: Miri
 #[derive(Serialize, Deserialize, Clone, Debug)]
 struct MiriReplay {
@@ -466,10 +643,10 @@ fn classify_miri(text: &str) -> Option<(String, String)> {
     None
 }
 
-fn miri_lane(seeds_per_scenario: u64, scenarios: usize) -> MiriOutcome {
+fn miri_lane(seeds_per_scenario: u64, scenarios: &[usize]) -> MiriOutcome {
     let start = Instant::now();
     let mut o = MiriOutcome { ok_runs: 0, failures: vec![], unavailable: None, wall_s: 0.0 };
-    for sc in 0..scenarios {
+    for &sc in scenarios {
         let text = match run_miri(sc, &miri_flags(&format!("-Zmiri-many-seeds=0..{}", seeds_per_scenario))) {
             Ok(t) => t,
             Err(e) => {
@@ -498,7 +675,7 @@ fn cmd_run(args: &[String]) -> i32 {
     let tier = arg_value(args, "--tier").unwrap_or_else(|| std::env::var("VERIF_TIER").unwrap_or_else(|_| "quick".into()));
     let base = vsim::util::env_u64("VERIF_SEED").unwrap_or(DEFAULT_SEED);
     let workers: u64 = arg_value(args, "--workers").and_then(|x| x.parse().ok()).unwrap_or(16);
-    let (def_runs, def_secs) = if tier == "thorough" { (3_000_000u64, 600u64) } else { (60_000u64, 60u64) };
+    let (def_runs, def_secs) = if tier == "thorough" { (3_000_000u64, 600u64) } else { (60_000u64, 45u64) };
     let runs: u64 = arg_value(args, "--runs").and_then(|x| x.parse().ok()).unwrap_or(def_runs);
     let max_secs: u64 = arg_value(args, "--max-seconds").and_then(|x| x.parse().ok()).unwrap_or(def_secs);
     println!("coresim: property=C17 tier={} VERIF_SEED={} runs<={} workers={} wall<={}s", tier, base, runs, workers, max_secs);
@@ -537,11 +714,32 @@ fn cmd_run(args: &[String]) -> i32 {
         reported.push(json!({"invariant": v.invariant, "message": v.message, "replay": path}));
     }
 
+    // ---- lane B2-cli: the same (text, config) through the real CLI in two different worlds
+    let cli_pairs: u64 = arg_value(args, "--cli-pairs").and_then(|x| x.parse().ok()).unwrap_or(if tier == "thorough" { 200_000 } else { 8_000 });
+    let cl = cli_worlds_lane(base, cli_pairs, workers as usize);
+    if let Some(r) = &cl.found {
+        let dir = verif_dir().join("replays");
+        let _ = std::fs::create_dir_all(&dir);
+        let path = dir.join(format!("C17-V17.6-cli-worlds-{}.json", vsim::rng::fnv(serde_json::to_string(r).unwrap_or_default().as_bytes())));
+        let _ = std::fs::write(&path, serde_json::to_string_pretty(r).unwrap());
+        violations += 1;
+        println!("VIOLATION property=C17 replay={}", path.display());
+        println!("  invariant V17.6-cli-worlds: {}", r.message);
+        println!("  argv: typstyle {}", r.world_b.argv("{ROOT}").join(" "));
+        reported.push(json!({"invariant": "V17.6-cli-worlds", "message": r.message, "replay": path}));
+    }
+    let cli_json = json!({"process_pairs_compared": cl.pairs, "benign_fault_rules_in_world_B": cl.faults_in_b, "errors": cl.errors.iter().take(5).collect::<Vec<_>>(),
+        "note": "same tree, same argv; world A: no fault, sorted directories, empty environment; world B: short reads/writes, EINTR, clock jumps, other randomness, environment variables; stdout bytes and exit status must be identical"});
+
     // ---- lane B3 (thorough tier, or on request): Miri many-seeds
-    let miri_seeds: u64 = arg_value(args, "--miri-seeds").and_then(|x| x.parse().ok()).unwrap_or(if tier == "thorough" { 16 } else { 0 });
-    let mut miri_json = json!({"run": false, "note": "lane B3 runs in the thorough tier only (./check C17 thorough, or --miri-seeds N)"});
+    // quick: only the scenario with concurrent calls under different configurations (the one place
+    // where a race inside code that has no hook point can hide), 16 seeds; thorough: all four
+    // scenarios, 32 seeds each
+    let miri_seeds: u64 = arg_value(args, "--miri-seeds").and_then(|x| x.parse().ok()).unwrap_or(if tier == "thorough" { 32 } else { 16 });
+    let miri_scenarios: Vec<usize> = if tier == "thorough" { vec![0, 1, 2, 3] } else { vec![3] };
+    let mut miri_json = json!({"run": false, "note": "lane B3 switched off (--miri-seeds 0)"});
     if miri_seeds > 0 {
-        let m = miri_lane(miri_seeds, 3);
+        let m = miri_lane(miri_seeds, &miri_scenarios);
         let mut m_reported = Vec::new();
         for (sc, seed, kind, ex) in &m.failures {
             if kind == "other" {
@@ -563,7 +761,7 @@ fn cmd_run(args: &[String]) -> i32 {
         miri_json = json!({
             "run": true,
             "seeds_per_scenario": miri_seeds,
-            "scenarios": 3,
+            "scenarios": miri_scenarios,
             "executions_ok": m.ok_runs,
             "failures_reported": m_reported,
             "other_miri_findings(not a C17 verdict)": m.failures.iter().filter(|f| f.2 == "other").map(|f| format!("scenario {} seed {}: {}", f.0, f.1, f.3)).collect::<Vec<_>>(),
@@ -615,6 +813,7 @@ fn cmd_run(args: &[String]) -> i32 {
             "determinism": {"seeds_rerun_in_process": st.rerun_checked, "schedule_log_mismatches": st.rerun_log_mismatch, "baton_takeovers(real lock suspected)": st.takeovers},
             "observations": {"calls_whose_step_count_differs_between_two_executions": st.step_count_differs_from_solo},
             "reported": reported,
+            "lane_B2_cli_separate_processes": cli_json,
             "lane_B3_miri": miri_json,
             "harness_errors": st.errors.iter().chain(b.worker_failures.iter()).take(10).collect::<Vec<_>>(),
             "real_vs_stub": {
@@ -665,6 +864,28 @@ fn cmd_replay(args: &[String]) -> i32 {
         eprintln!("cannot read {path}");
         return 2;
     };
+    if let Ok(cr) = serde_json::from_str::<CliWorldsReplay>(&text) {
+        if cr.engine == "cliworlds" {
+            let env = cli_env(7777);
+            let r = cli_worlds_differ(&env, &cr.tree, &cr.world_a, &cr.world_b);
+            let _ = std::fs::remove_dir_all(&env.base);
+            return match r {
+                Ok(Some(msg)) => {
+                    println!("VIOLATION property=C17 replay={}", path);
+                    println!("  invariant V17.6-cli-worlds: {}", msg);
+                    1
+                }
+                Ok(None) => {
+                    println!("replay: the recorded violation (V17.6-cli-worlds) did not reproduce on this tree");
+                    0
+                }
+                Err(e) => {
+                    eprintln!("HARNESS-ERROR: {e}");
+                    2
+                }
+            };
+        }
+    }
     if let Ok(mr) = serde_json::from_str::<MiriReplay>(&text) {
         if mr.engine == "miri" {
             return match run_miri(mr.scenario, &miri_flags(&format!("-Zmiri-seed={}", mr.miri_seed))) {
